@@ -129,6 +129,7 @@ def inspect_inv2(I, frame, i, seq):
         # other requests change the consumers table between transactions: the
         # "entry table + created" view only makes sense sequentially (C04)
         return inspect_inv(I, frame, i, seq)
+    I.ghost['created_list'] = frame.locals['new_consumers_created']
     return inspect_inv(I, frame, i, seq) + consumers_view(
         I, frame.locals['new_consumers_created'])
 
@@ -136,7 +137,10 @@ def inspect_inv2(I, frame, i, seq):
 def delete_consumers_inv(I, frame, i, seq):
     created = frame.locals['consumers']
     if I.interference or 'consumers0' not in I.ghost or \
-            not isinstance(created, SList):
+            not isinstance(created, SList) or \
+            created is not I.ghost.get('created_list'):
+        # only the clean-up of *the* list of consumers created by the request
+        # restores the entry table
         return []
     return consumers_view(I, created, lo=i)
 
